@@ -145,3 +145,26 @@ PROPS['C20'] = dict(
     assumptions=['keys are delivered as UTF-8; tab/LF are not printable keys and are ignored by the terminal'],
     trusted_base=['model Mkdb/Model/Console.lean hand-written from cmd/console/go_terminal.go'],
 )
+
+PROPS['C19'] = dict(
+    lean=['Mkdb.Props.C19'],
+    facts=['panics.cmd/csvimport.*', 'skeleton.cmd/csvimport.doBatchInsert', 'const.storage.maxValueSize'],
+    runs=[dict(cmd='csv', proto='csv')],
+    claim='Proof: C19_import (for every schema, mapping and record stream the table after the import is the table before it '
+          'followed by the converted accepted records in input order), C19_bad_record_harmless (a rejected record neither '
+          'prevents, alters nor duplicates the others), C19_one_row_each, C19_conv_field (the \\N marker is NULL; per-type '
+          'conversion incl. BIGINT) and - when present in the audit list - C19_convert (every mapped column of an accepted row holds '
+          'the converted field, every unmapped column is NULL) are Lean theorems about the model of colDataTypes / csvToSql / the '
+          'doBatchInsert loop on top of the C08 row codec. Tie: an in-package driver runs the real colDataTypes and doBatchInsert on a '
+          'real database; the record stream encoding/csv yields is passed to the model; per-record ok/err events and the final '
+          'SELECT * are compared; the judge checks one row per accepted record, order, and independence of bad records.',
+    note='Trusted: Lean kernel, hand-written model, encoding/csv (the model starts from its record stream), strconv.Atoi/ParseInt '
+         '(modelled), strings.ToLower restricted to ASCII for the boolean words, the storage layer below Insert (C01/C08/C12).',
+    rule='120 (thorough 960) imports: schemas of 1-6 columns over the four types (the first eight fix one column of each type), '
+         'random mappings (subset, order, source indexes, occasionally an unknown column), separators , ; tab |, 0-12 records each: '
+         'valid fields per type incl. boundary integers, \\N, unparsable numbers, wrong words, quoted fields with separators / '
+         'quotes / newlines, rows over the 400-byte limit, short records, malformed quoting, empty lines. Non-trivial: at least one '
+         'row stored; distinct by (schema, mapping, data).',
+    assumptions=['source column indexes are non-negative (a negative -src-cols entry is a configuration error that crashes csvimport)'],
+    trusted_base=['model Mkdb/Model/Csv.lean hand-written from cmd/csvimport/main.go'],
+)
